@@ -958,7 +958,7 @@ func runC12(w *World, r *Report) {
 			})
 		}
 		if n < 3 {
-			undecidedf("C12.decoders-match-envelope: only %d decoder calls found in internal/serialization", n)
+			r.Deferred = append(r.Deferred, fmt.Sprintf("C12.decoders-match-envelope: only %d decoder calls found in internal/serialization", n))
 		}
 	}
 
